@@ -122,6 +122,27 @@ def gen(seed, tier):
             for inc in (0, 1):
                 out.append(f"vander@{rng.choice(['i32', 'i64', 'f64'])} {arr([n], xs)} {opt(cols)} z{inc}")
     out.append("vander a2x2:1,2,3,4 n z0")
+    # larger sizes, rectangular with offsets on both sides (strided / blocked fills must not lose a tail)
+    for n, m in ((8, 8), (9, 17), (17, 9), (16, 33), (33, 5), (1, 40), (40, 1), (12, 12)):
+        for k in (None, 0, 1, -1, 3, -3, m - 1, -(n - 1), m, -n, m + 2, 7, -7):
+            ty = rng.choice(["i32", "i64", "f64"])
+            if k is None or k >= 0:
+                out.append(f"eye@{ty} z{n} z{m} {opt(k)}")
+            out.append(f"tri@{ty} z{n} z{m} {opt(k)}")
+            a = arr([n, m], base=1)
+            out.append(f"tril@{ty} {a} {opt(k)}")
+            out.append(f"triu@{ty} {a} {opt(k)}")
+            out.append(f"diag@{ty} {a} {opt(k)}")
+        out.append(f"identity@i32 z{n}")
+        out.append(f"zeros@i32 {lst([n, m])}")
+        out.append(f"full@i64 {lst([n, m])} z3")
+    for n in (8, 17, 33):
+        for k in (None, 0, 2, -2, 5, -9):
+            out.append(f"diag {arr([n], base=1)} {opt(k)}")
+            out.append(f"diagflat {arr([2, n // 2], base=1)} {opt(k)}")
+        out.append(f"vander@i64 {arr([n], [rng.randint(-2, 2) for _ in range(n)])} z9 z{n % 2}")
+    for a, b, st in ((0, 100, 1), (-50, 50, 7), (3, 300, 3), (0, 1000, 33), (5, 6, 1), (0, 257, 2)):
+        out.append(f"arange@{rng.choice(['i32', 'i64', 'f64'])} z{a} z{b} z{st}")
     for a, b in itertools.product(range(-6, 13, 2), range(-6, 13, 3)):
         for st in (None, 1, 2, 3, 4):
             out.append(f"arange@{rng.choice(['i32', 'i64', 'f64'])} z{a} z{b} {opt(st)}")
